@@ -223,9 +223,12 @@ def weekday_of_epoch(chk, F):
     wd = F.find1(self_ty="Epoch", name="weekday_in_time_scale", trait="")
     for name, scale in (("weekday", "TAI"), ("weekday_utc", "UTC")):
         fn2 = F.find1(self_ty="Epoch", name=name, trait="")
-        eng.hooks_by_id = {wd["id"]: rec_hook(D, "wits")}
+        A_ = EpochAlg(F, eng, D)
+        A_.install(duration_algebra=False, opaque_conv=True)  # a conversion, if any, stays uninterpreted
+        eng.hooks_by_id[wd["id"]] = rec_hook(D, "wits")
         finals, args = D.run(fn2)
-        eng.hooks_by_id = {}
+        A_.uninstall()
+        chk.ob(rule, "Epoch::%s" % name, "explored", any(st.end == "return" for st in finals), "paths", detail=len(finals))
         for st in finals:
             r = recs(st, "wits")
             ok = st.end == "return" and len(r) == 1 and _same_ref(eng, st, r[0][0][0], args[0]) and scale_name(eng, st, r[0][0][1]) == scale and st.ret is r[0][1]
